@@ -1,7 +1,8 @@
 //! End-to-end stream: the real engine (DEFINE / STORE / FLUSH / QUERY through parse_command +
 //! dispatch_command in a child process), clean typed data split over shards, memtable and
 //! segments. Oracle: the aggregate table must equal the reference fold over the rows that the
-//! same query *without* the aggregate clause returns. Where the query has no FOR / LIMIT and no
+//! same query *without* the aggregate clause returns (with LIMIT n: the first n groups of that
+//! table in (bucket, group) order). Where the query has no FOR / LIMIT and no
 //! other event type is stored, the table is also compared for equality with the model (fed the
 //! stored rows as one flow — for such data the table does not depend on the split,
 //! `C09_partition_independent_partial`).
@@ -407,13 +408,15 @@ pub fn stream_e2e(a: &Args) {
             }
             let ok = match q.limit {
                 None => got == exp,
-                // LIMIT only caps the number of groups: a sub-table of the full one of the right size
-                Some(l) => got.len() == exp.len().min(l) && got.iter().all(|(k, v)| exp.get(k) == Some(v)),
+                // LIMIT only caps the number of groups (since a6114e9 the rows are no longer
+                // truncated): without ORDER BY the merger sorts by (bucket, group values) and keeps
+                // the first `l` groups, cells untouched
+                Some(l) => got == exp.iter().take(l).map(|(k, v)| (k.clone(), v.clone())).collect::<Table>(),
             };
             if ok {
                 s.oracle_ok();
             } else {
-                let class = if !clean && q.limit.is_none() && q.ctx.is_none() {
+                let class = if !clean && q.ctx.is_none() {
                     // rows of an earlier history were still in memory
                     "agg-ignores-for-since-type"
                 } else if selection_short && q.limit.is_none() && got == reference(&q, &log_sel) {
@@ -423,8 +426,6 @@ pub fn stream_e2e(a: &Args) {
                     "count-unique-typed-int-column"
                 } else if !leaked.is_empty() {
                     "agg-ignores-for-since-type"
-                } else if q.limit.is_some() {
-                    "agg-limit-truncates-rows"
                 } else {
                     "-"
                 };
